@@ -46,6 +46,7 @@ type GenConfig struct {
 	Recv        string
 	OptBait     bool // bias to shapes the grammar optimizer rewrites (C09)
 	NoCodePred  bool // no &{} / !{} blocks (bootstrap subset)
+	NoSpellings bool // canonical spelling of literals and classes only
 }
 
 // Profile returns the configuration of a named profile.
@@ -92,12 +93,14 @@ func Profile(name string) GenConfig {
 		c.Display = true
 		c.EmptyClass = true
 		c.ICUnsafe = true
+		c.NoSpellings = true // the speller of the front-end checks draws its own spellings
 	case "bootsub":
 		// the syntax subset of the hand-written bootstrap front-end: no recovery/throw, no code
 		// predicates, no state blocks
 		c.Code = true
 		c.Display = true
 		c.NoCodePred = true
+		c.NoSpellings = true
 		c.Alphabet = Alphabet
 	case "optbait":
 		c.Code = true
@@ -158,6 +161,7 @@ func (c *gen) lit() *Expr {
 	if c.cfg.ICLit && c.chance(25, "litic") {
 		e.IC = true
 	}
+	e.Sp = c.spelling()
 	return e
 }
 
@@ -190,7 +194,17 @@ func (c *gen) class() *Expr {
 			e.UClasses = append(e.UClasses, Pick(c.t, UClassPool, "ucl"))
 		}
 	}
+	e.Sp = c.spelling()
 	return e
+}
+
+// spelling draws the spelling seed of a terminal: mostly canonical, otherwise escapes and
+// quotings (see Expr.Sp).
+func (c *gen) spelling() int {
+	if c.cfg.NoSpellings || !c.chance(25, "spelled") {
+		return 0
+	}
+	return 1 + U(c.t, 1<<12, "spelling")
 }
 
 func (c *gen) terminal() (*Expr, bool) {
